@@ -370,7 +370,67 @@ def _q_shape_failures(n, seed, limit=3):
     return fails
 
 
+def _split_merge_failures(limit=10 ** 6):
+    """[B] real Q_vec_from_Q_elements / hkl_elements_from_hkl_vec: components are matched BY DIMENSION LABEL, whatever their memory
+    layout -- scalars, 1-d, 2-d in the same and in transposed dimension order (square and non-square), strided views of a vector
+    field, single precision; splitting and reassembling is the identity."""
+    import numpy as np
+    import scipp as sc
+    from vf.realrun import real_module
+    tof = real_module('conversion.tof')
+    rng = np.random.default_rng(8)
+    fails = []
+
+    def comp(shape, dims, dtype='float64'):
+        return sc.array(dims=list(dims), values=rng.normal(size=shape), unit='1/angstrom', dtype=dtype)
+    cases = []
+    for nu, nv in ((4, 4), (2, 3), (1, 5)):
+        x, y, z = comp((nu, nv), 'uv'), comp((nu, nv), 'uv'), comp((nu, nv), 'uv')
+        cases.append((f'2-d {nu}x{nv}, same order', x, y, z))
+        cases.append((f'2-d {nu}x{nv}, Qy in transposed dimension order', x, y.transpose(['v', 'u']).copy(), z))
+        cases.append((f'2-d {nu}x{nv}, Qz a transposed view', x, y, z.transpose(['v', 'u'])))
+        cases.append((f'2-d {nu}x{nv}, Qx in transposed dimension order', x.transpose(['v', 'u']).copy(), y, z))
+    cases.append(('scalars', comp((), ()), comp((), ()), comp((), ())))
+    cases.append(('1-d', comp((5,), 'u'), comp((5,), 'u'), comp((5,), 'u')))
+    cases.append(('1-d float32', comp((5,), 'u', 'float32'), comp((5,), 'u', 'float32'), comp((5,), 'u', 'float32')))
+    v = sc.vectors(dims=['u', 'v'], values=rng.normal(size=(3, 4, 3)), unit='1/angstrom')
+    cases.append(('strided components of a 2-d vector field', v.fields.x, v.fields.y, v.fields.z))
+    cases.append(('components of a transposed vector field', v.transpose(['v', 'u']).fields.x, v.fields.y, v.transpose(['v', 'u']).copy().fields.z))
+    for label, qx, qy, qz in cases:
+        try:
+            got = tof.Q_vec_from_Q_elements(Qx=qx, Qy=qy, Qz=qz)
+        except Exception as e:  # noqa: BLE001
+            fails.append({'id': label, 'kind': 'split-merge', 'problem': f'raised {type(e).__name__}: {e}'[:300]})
+            continue
+        prob = None
+        if set(got.dims) != set(qx.dims) or got.unit != qx.unit:
+            prob = f'dims {got.dims} / unit {got.unit}'
+        else:
+            for name, q in (('x', qx), ('y', qy), ('z', qz)):
+                want = q.transpose(got.dims) if q.ndim > 1 else q
+                if not np.allclose(getattr(got.fields, name).values, want.values.astype('float64'), rtol=0, atol=0):
+                    prob = f'component {name} of the result is not Q{name} element by element (matched by dimension label)'
+                    break
+        if prob:
+            fails.append({'id': label, 'kind': 'split-merge', 'problem': prob})
+        if len(fails) >= limit:
+            return fails
+    # splitting and reassembling
+    hv = sc.vectors(dims=['u', 'v'], values=rng.normal(size=(3, 4, 3)))
+    try:
+        parts = tof.hkl_elements_from_hkl_vec(hkl_vec=hv)
+        back = tof.Q_vec_from_Q_elements(Qx=parts['h'], Qy=parts['k'], Qz=parts['l'])
+        if list(parts) != ['h', 'k', 'l'] or not sc.identical(back, hv):
+            fails.append({'id': 'split then merge', 'kind': 'split-merge', 'problem': 'splitting a vector field into components and reassembling them is not the identity'})
+    except Exception as e:  # noqa: BLE001
+        fails.append({'id': 'split then merge', 'kind': 'split-merge', 'problem': f'raised {type(e).__name__}: {e}'[:300]})
+    return fails
+
+
 def bounded_numeric(chk):
+    fsm = _split_merge_failures()
+    chk.bounded_check('split-merge-by-label', 'real Q_vec_from_Q_elements / hkl_elements_from_hkl_vec: components matched by dimension label for every memory layout; '
+                      'split then merge is the identity', '17 layouts (scalar, 1-d, 2-d same / transposed order, square and not, views, float32) + 1 round trip', 18, fsm)
     n = 300 if chk.tier == 'quick' else 5000
     fails, worst = _numeric_failures(n, 77 + chk.seed)
     chk.bounded_check('Q-and-hkl-rounding', 'real kernels vs numpy on random SO(3) rotations, cond(B) <= 1e6', f'{n} random cases',
@@ -387,6 +447,9 @@ def bounded_numeric(chk):
 def replay(rec):
     if '/bounded/' in rec['obligation']:
         f = rec.get('meta', {}).get('replay') or rec.get('model') or {}
+        if f.get('kind') == 'split-merge':
+            hit = [x for x in _split_merge_failures() if x['id'] == f.get('id')]
+            return {'reproduced': bool(hit), 'case': hit[:1]}
         if f.get('kind') == 'qshape':
             fails = _q_shape_failures(int(f.get('index', 0)) + 1, int(f.get('seed', 93)), limit=10 ** 6)
             hit = [x for x in fails if x['index'] == f.get('index')]
@@ -398,6 +461,9 @@ def replay(rec):
         fails, worst = _numeric_failures(int(f.get('index', 0)) + 1, int(f.get('seed', 77)), limit=1000)
         hit = [x for x in fails if x['index'] == f.get('index')]
         return {'reproduced': bool(hit), 'case': hit[:1]}
+    if 'Q_vec_from_Q_elements' in rec['obligation'] or 'hkl_elements_from_hkl_vec' in rec['obligation']:
+        fsm = _split_merge_failures()
+        return {'reproduced': bool(fsm), 'cases': fsm[:1]}
     if 'Q_elements_from_wavelength' in rec['obligation']:
         fq = _q_shape_failures(64, 93)
         if fq:
